@@ -134,9 +134,7 @@ func (dc *TraditionalDnsConn) exchange(ctx context.Context, q []byte) (*[]byte, 
 	// The Read deadline will be refreshed in DnsConn.readLoop() after every successful read.
 	// Note: There has a race condition in this SetReadDeadline() call and the one in
 	// readLoop(). It's not a big problem.
-	if dc.waitingResp.CompareAndSwap(false, true) {
-		dc.c.SetReadDeadline(time.Now().Add(waitingReplyTimeout))
-	}
+	dc.armWaitingResp(assignedQid, respChan)
 
 	var resend <-chan time.Time
 	if !dc.isTcp {
@@ -296,6 +294,25 @@ func (dc *TraditionalDnsConn) takeQueueC(qid uint16) chan<- *[]byte {
 	// after this will see the flag was cleared and arm the deadline by itself.
 	dc.waitingResp.Store(len(dc.queue) > 0)
 	return c
+}
+
+// armWaitingResp arms the waiting-reply deadline if the query (qid, c) is the first
+// one that is waiting for a reply.
+// If the reply of the query was taken already (it was read while the caller was
+// still sending), the query is not waiting. takeQueueC accounted for that, setting
+// the flag now would leave it set with nobody waiting: later queries could not arm
+// the deadline and would be cut off by the deadline that was armed here.
+func (dc *TraditionalDnsConn) armWaitingResp(qid uint16, c chan *[]byte) {
+	// Note: In the same critical section as takeQueueC updates the flag, so the
+	// reader, which sets the deadline after it, always has the last word.
+	dc.queueMu.Lock()
+	defer dc.queueMu.Unlock()
+	if dc.queue[uint32(qid)] != c {
+		return
+	}
+	if dc.waitingResp.CompareAndSwap(false, true) {
+		dc.c.SetReadDeadline(time.Now().Add(waitingReplyTimeout))
+	}
 }
 
 // addQueueC assigns a qid and add it to the queue.
